@@ -19,7 +19,8 @@ META = {
              "exact and shape-independent: for EVERY encodable value both document loops read its encoding to the end iff fewer than "
              "1024 collections surround its innermost value, and deeper values are refused with the depth-limit error "
              "(C18_msgpack_limit_exact, C18_verdict_depends_on_depth_only), and likewise on the serde_json reader/writer models the JSON "
-             "text of any value is read back iff its depth is below 128 (C18_json_limit_exact); the model "
+             "text of any value is read back iff its depth is below 128 (C18_json_limit_exact; with the float-spelling model for every "
+             "finite binary64 and no premise: C18_json_limit_exact_with_floats); the model "
              "(size calculator, rmp-serde depth counter, both document loops) is diffed against the implementation on all "
              "short byte strings, all markers and nesting windows around 1024 in every shape. For JSON/YAML/TOML the limits "
              "belong to third-party crates and are observed: same verdict slice vs reader at every depth in a window, one "
@@ -33,6 +34,10 @@ META = {
         "extraction (ExtrOcamlBasic only), model_driver/driver.ml, harness/src/msgpack.rs, src/verif.rs hooks",
         "JSON/YAML/TOML nesting limits: serde_json, serde_yaml, toml_edit (observed)",
         "process stack behaviour of the real binaries (observed in the thorough tier)",
+        "hand-written Gallina model JsonFloatModel.v of serde_json's serialize_f64 and ryu 1.0's pretty::format64 (an executable "
+        "specification in exact integer arithmetic, not ryu's table-driven algorithm), tied to the code by the float-spelling (RY) and the "
+        "JSON->JSON / MessagePack->JSON (JW, MJ) correspondences; F64Proofs.v / JsonFloatTotalProofs.v prove about the MODEL that the reader's "
+        "conversion is correctly rounded and that every finite binary64 has a spelling that reads back",
     ],
     "assumptions": ["usize is 64 bits (3 + u32 length cannot overflow)"],
     "explanation": "proved: no panic / in-bounds / termination of the MessagePack size calculator; checked by "
@@ -48,7 +53,8 @@ def shapes(fmt, d, only=None):
     if fmt == "json":
         mk = {"array": lambda: b"[" * d + b"1" + b"]" * d, "map": lambda: b'{"a":' * d + b"1" + b"}" * d,
               "alt": lambda: (lambda oc: oc[0] + b"1" + oc[1])(alt(b"[", b'{"a":', b"]", b"}")),
-              "empty": lambda: b"[" * d + b"]" * d}
+              "empty": lambda: b"[" * d + b"]" * d,
+              "sibs": lambda: b"[[]," * d + b"1" + b"]" * d}
     elif fmt == "yaml":
         mk = {"array": lambda: b"[" * d + b"1" + b"]" * d, "map": lambda: b"{a: " * d + b"1" + b"}" * d,
               "alt": lambda: (lambda oc: oc[0] + b"1" + oc[1])(alt(b"[", b"{a: ", b"]", b"}")),
@@ -60,6 +66,8 @@ def shapes(fmt, d, only=None):
               "alt": lambda: (lambda oc: b"a = " + oc[0] + b"1" + oc[1] + b"\n")(alt(b"[", b"{b = ", b"]", b"}"))}
     else:
         mk = {s: (lambda s=s: corpus.nest_msgpack(d, s)) for s in ["array", "map", "mapkey", "alt", "empty"]}
+        # every level holds an empty map beside the next level: empty collections must not use up the depth budget
+        mk["sibs"] = lambda: b"\x92\x80" * d + b"\x01"
     return {k: f() for k, f in mk.items() if only is None or k in only}
 
 
@@ -89,6 +97,15 @@ def nesting_oracle(outcome, tier, seed):
                             reqs.append({"id": len(reqs), "to": to,
                                          "calls": [{"input": shared.hx(data), "from": frm, "mode": mode, "sched": sched}]})
                         meta.append((fmt, d, sh, to, frm, data, sched))
+    # shallow documents holding thousands of empty collections (depth 2): the nesting limit is about depth, not about counts
+    for sh, data in (("flat array of 3000 empty arrays", b"\xdc" + (3000).to_bytes(2, "big") + b"\x90" * 3000),
+                     ("flat array of 3000 empty maps", b"\xdc" + (3000).to_bytes(2, "big") + b"\x80" * 3000),
+                     ("1500 pairs of empty collections in a map", b"\xde" + (1500).to_bytes(2, "big") + b"".join(b"\xa4k%03x\x90" % i for i in range(1500)))):
+        for to in ("json", "msgpack"):
+            sched = corpus.random_sched(rng)
+            for mode in ("slice", "reader"):
+                reqs.append({"id": len(reqs), "to": to, "calls": [{"input": shared.hx(data), "from": "msgpack", "mode": mode, "sched": sched}]})
+            meta.append(("msgpack", 2, sh, to, "msgpack", data, sched))
     resps = common.harness_batch(reqs)
     table = {}
     for i, (fmt, d, sh, to, frm, data, sched) in enumerate(meta):
@@ -105,7 +122,10 @@ def nesting_oracle(outcome, tier, seed):
                 "source_format": fmt, "from": frm or "detect", "shape": sh, "to": to, "sched": sched,
                 "input_hex": shared.hx(data) if len(data) < 5000 else "(%d bytes; %s x %d)" % (len(data), sh, d),
                 "slice": rs[:2], "reader": rr[:2]})
-        if frm == fmt and (to in ("json", "msgpack") if sh != "mapkey" else to == "msgpack"):
+        if sh.startswith(("flat array", "1500 pairs")) and (rs[0] != "ok" or rr[0] != "ok"):
+            outcome.oracle_failures.append({"what": "a MessagePack document of depth 2 (%s) does not translate: slice %s, reader %s" % (sh, rs[0], rr[0]),
+                                            "source_format": fmt, "to": to, "input_hex": shared.hx(data)[:200] + "...", "slice": rs[:2], "reader": rr[:2]})
+        if frm == fmt and (to in ("json", "msgpack") if sh != "mapkey" else to == "msgpack") and d != 2:
             table.setdefault((fmt, sh), {})[d] = rs[0]
     # one clean limit per format: accept up to L, reject beyond, same L for arrays, maps and mixtures
     limits = {}
